@@ -9,7 +9,7 @@
    The second half replaces the mean-squared error by any objective with a local contract and proves
    the contract for absolute error, mean-squared error, binary cross-entropy and KL divergence. *)
 From NV Require Import Prelude Num NumR Random Tensor Activation Objective Optimizer Layers Network Learn.
-From NV.Theory Require Import RSum Chain ChainDense NetDeriv NetDerivObj.
+From NV.Theory Require Import RSum Deriv Chain ChainDense NetDeriv NetDerivObj NetDerivSoftmax.
 From NV.Theory Require C06.
 Require Import Reals List.
 From Coquelicot Require Import Coquelicot.
@@ -74,7 +74,8 @@ Theorem C01_model_backward_is_the_reverse_walk :
          length xl = d ->
          length gl = lastD specs d ->
          fw_pre f = map (t_single NR) (presL specs xl) ->
-         fw_post f = map (t_single NR) (insL specs xl ++ (predL specs xl :: nil)) ->
+         (forall t : nat,
+          (t < length specs)%nat -> nth_error (fw_post f) t = Some (t_single NR (nth t (insL specs xl) []))) ->
          fw_max f = repeat None (length specs) ->
          let
          '(_, gps, gins) := gradsL specs xl gl in
@@ -169,6 +170,7 @@ Theorem C01_model_gradient_theorem_applies :
 Proof. exact @mlp_model_gradient_applies. Qed.
 Print Assumptions C01_model_gradient_theorem_applies.
 
+
 Theorem C01_model_gradient_for_any_objective_with_contract :
   forall (o : objective) (m : nat) (tgl : list R) (Lf : list R -> R) (gL : list R -> list R)
            (n0 : network NR) (cs : curves) (d : nat) (xl : list R) (h0 : R),
@@ -254,4 +256,98 @@ Theorem C01_separable_theorem_applies_to_bce :
                    (t_single NR [x1; x2], t_single NR (y :: nil)))) 0 (pairing cs gps).
 Proof. exact @separable_applies_bce. Qed.
 Print Assumptions C01_separable_theorem_applies_to_bce.
+
+(* ---- soft-max output layer under the cross-entropy objective ---- *)
+Theorem C01_softmax_layer_backward_is_the_linear_layer_backward :
+  forall (n0 : network NR) (front : list (lspec * vec)) (s : lspec) (th : vec) 
+           (g : tensor NR) (f : fwd NR),
+         ls_act s = Softmax ->
+         backward (set_layers n0 (map mkL front ++ (mkL (s, th) :: nil))) g f =
+         backward (set_layers n0 (map mkL front ++ (mkL (as_linear s, th) :: nil))) g f.
+Proof. exact @backward_softmax_as_linear. Qed.
+Print Assumptions C01_softmax_layer_backward_is_the_linear_layer_backward.
+
+Theorem C01_model_forward_with_softmax_output :
+  forall (front : list (lspec * vec)) (s : lspec) (th : vec) (n0 : network NR),
+         n_connect n0 = [] ->
+         n_loopbacks n0 = [] ->
+         ls_act s = Softmax ->
+         forall (d : nat) (xl : list R),
+         length xl = d ->
+         chainedS front d ->
+         ls_n s = lastD front d ->
+         forward (set_layers n0 (map mkL front ++ (mkL (s, th) :: nil))) (t_single NR xl) =
+         Ok
+           {|
+             fw_pre := map (t_single NR) (presL (front ++ ((as_linear s, th) :: nil)) xl);
+             fw_post :=
+               map (t_single NR)
+                 (insL (front ++ ((as_linear s, th) :: nil)) xl ++
+                  (softmax_list NR (predL (front ++ ((as_linear s, th) :: nil)) xl) :: nil));
+             fw_max := repeat None (length (front ++ ((as_linear s, th) :: nil)));
+             fw_fb := []
+           |}.
+Proof. exact @forward_softmax_net. Qed.
+Print Assumptions C01_model_forward_with_softmax_output.
+
+Theorem C01_cross_entropy_of_softmax_contract :
+  forall (tgl y0 : list R) (m : nat) (h0 : R),
+         (0 < m)%nat ->
+         length tgl = m ->
+         bsum m (vof tgl) = 1 ->
+         (forall i : nat, (i < m)%nat -> C06.eps_R < smR m (vof y0) i < 1 - C06.eps_R) ->
+         contract_at m (ce_of_logits tgl) (ce_logit_grad tgl) y0 h0.
+Proof. exact @ce_softmax_contract. Qed.
+Print Assumptions C01_cross_entropy_of_softmax_contract.
+
+Theorem C01_model_gradient_softmax_cross_entropy :
+  forall (cfront : curves) (s : lspec) (Th : R -> vec) (Th' : vec) (n0 : network NR),
+         n_connect n0 = [] ->
+         n_loopbacks n0 = [] ->
+         n_objective n0 = (CrossEntropy, None) ->
+         ls_act s = Softmax ->
+         forall (d : nat) (xl tgl : list R) (h0 : R),
+         length xl = d ->
+         chainedS (at_t cfront h0) d ->
+         ls_n s = lastD (at_t cfront h0) d ->
+         (0 < ls_o s)%nat ->
+         (0 < ls_n s)%nat ->
+         length tgl = ls_o s ->
+         bsum (ls_o s) (vof tgl) = 1 ->
+         curves_ok (clin cfront s Th Th') h0 ->
+         smoothL (at_t (clin cfront s Th Th') h0) xl ->
+         (forall i : nat,
+          (i < ls_o s)%nat ->
+          C06.eps_R < smR (ls_o s) (vof (predL (at_t (clin cfront s Th Th') h0) xl)) i < 1 - C06.eps_R) ->
+         exists gps : list vec,
+           length gps = length (clin cfront s Th Th') /\
+           sample_grad (sm_net_at cfront s Th n0 h0) (t_single NR xl, t_single NR tgl) =
+           Ok
+             (ws_of (at_t (clin cfront s Th Th') h0) gps, bs_of (at_t (clin cfront s Th Th') h0) gps,
+              ce_of_logits tgl (predL (at_t (clin cfront s Th Th') h0) xl)) /\
+           (forall t : R,
+            loss_of (sample_grad (sm_net_at cfront s Th n0 t) (t_single NR xl, t_single NR tgl)) =
+            ce_of_logits tgl (predL (at_t (clin cfront s Th Th') t) xl)) /\
+           is_derive
+             (fun t : R_AbsRing =>
+              loss_of (sample_grad (sm_net_at cfront s Th n0 t) (t_single NR xl, t_single NR tgl))) h0
+             (pairing (clin cfront s Th Th') gps).
+Proof. exact @softmax_ce_model_gradient. Qed.
+Print Assumptions C01_model_gradient_softmax_cross_entropy.
+
+Theorem C01_softmax_cross_entropy_theorem_applies :
+  forall (th0 d0 dl : vec) (x1 x2 : R),
+         let s0 := {| ls_o := 2; ls_n := 2; ls_act := Tanh; ls_bias := true |} in
+         let s := {| ls_o := 2; ls_n := 2; ls_act := Softmax; ls_bias := true |} in
+         let cfront := ((s0, fun (t : R) (i : nat) => th0 i + t * d0 i, d0) :: nil) in
+         let n0 := set_objective (network_new NR (SSingle 2)) CrossEntropy None in
+         exists gps : list vec,
+           is_derive
+             (fun t : R_AbsRing =>
+              loss_of
+                (sample_grad (sm_net_at cfront s (fun (t0 : R) (i : nat) => t0 * dl i) n0 t)
+                   (t_single NR [x1; x2], t_single NR [1; 0]))) 0
+             (pairing (clin cfront s (fun (t : R) (i : nat) => t * dl i) dl) gps).
+Proof. exact @softmax_ce_model_gradient_applies. Qed.
+Print Assumptions C01_softmax_cross_entropy_theorem_applies.
 
